@@ -141,10 +141,16 @@ def run_driver_group(group, repo, seed):
         shutil.copyfile(os.path.join(repo, 'Cargo.lock'), os.path.join(pdir, 'Cargo.lock'))
         cmd = ['cargo', 'run', '--offline', '--release', '--quiet', '--bin', group['bin']]
         env['CARGO_TARGET_DIR'] = os.path.join(CACHE, 'target-pipeline')
-        p = subprocess.run(cmd, cwd=pdir, env=env, capture_output=True, text=True, timeout=3600)
+        try:
+            p = subprocess.run(cmd, cwd=pdir, env=env, capture_output=True, text=True, timeout=1800)
+        except subprocess.TimeoutExpired as e:
+            return {'name': group['name'], 'cmd': ' '.join(cmd), 'ok': False, 'witnesses': [], 'cases': {}, 'wall_s': round(time.time() - t0, 1), 'tail': 'driver did not finish within 1800 s'}
     else:
         cmd = ['cargo', 'test', '--offline', '--quiet', '-p', group['crate'], '--lib', group['filter'], '--', '--nocapture', '--test-threads', '8']
-        p = subprocess.run(cmd, cwd=WORK, env=env, capture_output=True, text=True, timeout=3600)
+        try:
+            p = subprocess.run(cmd, cwd=WORK, env=env, capture_output=True, text=True, timeout=1800)
+        except subprocess.TimeoutExpired as e:
+            return {'name': group['name'], 'cmd': ' '.join(cmd), 'ok': False, 'witnesses': [], 'cases': {}, 'wall_s': round(time.time() - t0, 1), 'tail': 'driver did not finish within 1800 s'}
     out = p.stdout + '\n' + p.stderr
     wit, cases = parse_protocol(out)
     ok = p.returncode == 0
